@@ -232,9 +232,15 @@ def overlapping_fields(rng, sv, doc):
                     a1, a2 = argsv(1), argsv(2)
                     if a1 is None:
                         continue
+                    feat = "different-arguments"
+                    optional = [a for a in a2 if not any(x["name"] == a["name"] and x["type"][0] == "nonNull"
+                                                         and x.get("default") is None for x in f["args"])]
+                    if optional and rng.random() < 0.5:
+                        a2 = [a for a in a2 if a is not optional[0]]
+                        feat = "different-number-of-arguments"
                     l.insert(rng.randint(0, len(l)), mk_field(f, alias="zc", args=a1))
                     l.insert(rng.randint(0, len(l)), mk_field(f, alias="zc", args=a2))
-                    return d, "different-arguments"
+                    return d, feat
             if v == "nested":
                 comp = [f for f in sv.fields(par) if sv.kind(gs.ty_base(f["type"])) in ("object", "interface")
                         and not f.get("args")]
